@@ -59,7 +59,7 @@ EDITS = {
           ("\t\t\tif(child) {\n\t\t\t\tFRG_ASSERT(h(child).backlink == element);",
            "\t\t\th(element).backlink = nullptr;\n\t\t\th(element).sibling = nullptr;\n\t\t\th(element).child = nullptr;\n"
            "\t\t\tif(child) {\n\t\t\t\tFRG_ASSERT(h(child).backlink == element);", 1)]),
-        ("P18", "sem", "remove: sibling.backlink fixed before the predecessor link (PM10: independent writes, order only)",
+        ("P18", "order", "remove: sibling.backlink fixed before the predecessor link (PM10: independent writes, order only; expected: breaks)",
          [("\t\t\tif(sibling)\n\t\t\t\th(sibling).backlink = predecessor;\n", "", 1),
           ("\t\t\tif(h(predecessor).child == element) {", "\t\t\tif(sibling)\n\t\t\t\th(sibling).backlink = predecessor;\n\t\t\tif(h(predecessor).child == element) {", 1)]),
         ("PH1", "harmless", "rename the local `sibling` of _merge (expected green)",
@@ -86,6 +86,97 @@ EDITS = {
          [("\t\t\t_root = element;\n", "\t\t\t_root = element + 1;\n", 1)]),
         ("PX2", "subset", "a construct outside the subset: do-while loop (expected: rejected, node named)",
          [("\t\twhile(paired) {", "\t\tdo {", 1), ("\t\t\tpaired = predecessor;\n\t\t}\n\n\t\treturn joined;", "\t\t\tpaired = predecessor;\n\t\t} while(paired);\n\n\t\treturn joined;", 1)]),
+    ],
+    "hashmap": [
+        ("H1", "sem", "rehash: minimum capacity 12 instead of 10",
+         [("\tif(new_capacity < 10)\n\t\tnew_capacity = 10;", "\tif(new_capacity < 10)\n\t\tnew_capacity = 12;", 1)]),
+        ("H2", "sem", "rehash: `next` read after item->next was overwritten (dependent swap)",
+         [("\t\t\tchain *next = item->next;\n\t\t\titem->next = new_table[bucket];", "\t\t\titem->next = new_table[bucket];\n\t\t\tchain *next = item->next;", 1)]),
+        ("H3", "sem", "rehash: node not stored into the new table",
+         [("\t\t\tnew_table[bucket] = item;\n", "", 1)]),
+        ("H4", "sem", "rehash: old buckets walked up to new_capacity",
+         [("\tfor(size_t i = 0; i < _capacity; i++) {\n\t\tchain *item = _table[i];\n\t\twhile(item != nullptr) {\n\t\t\tauto bucket",
+           "\tfor(size_t i = 0; i < new_capacity; i++) {\n\t\tchain *item = _table[i];\n\t\twhile(item != nullptr) {\n\t\t\tauto bucket", 1)]),
+        ("H5", "sem", "rehash: bucket computed modulo the OLD capacity",
+         [("auto bucket = ((unsigned int)_hasher(item->entry.template get<0>())) % new_capacity;",
+           "auto bucket = ((unsigned int)_hasher(item->entry.template get<0>())) % _capacity;", 1)]),
+        ("H6", "sem", "insert: new node's next not linked to the old head",
+         [("\tauto item = frg::construct<chain>(_allocator, key, value);\n\titem->next = _table[bucket];\n", "\tauto item = frg::construct<chain>(_allocator, key, value);\n", 1)]),
+        ("H7", "sem", "insert: rehash only when _size > _capacity",
+         [("void hash_map<Key, Value, Hash, Allocator>::insert(const Key &key, const Value &value) {\n\tif(_size >= _capacity)",
+           "void hash_map<Key, Value, Hash, Allocator>::insert(const Key &key, const Value &value) {\n\tif(_size > _capacity)", 1)]),
+        ("H8", "sem", "insert(Value&&): FRG_ASSERT(_capacity > 0) dropped",
+         [("\tFRG_ASSERT(_capacity > 0);\n\tunsigned int bucket = ((unsigned int)_hasher(key)) % _capacity;\n\t\n\tauto item = frg::construct<chain>(_allocator, key, std::move(value));",
+           "\tunsigned int bucket = ((unsigned int)_hasher(key)) % _capacity;\n\t\n\tauto item = frg::construct<chain>(_allocator, key, std::move(value));", 1)]),
+        ("H9", "sem", "operator[]: _size not incremented on the empty-map path",
+         [("\t\t_table[bucket] = item;\n\t\t_size++;\n\t}\n", "\t\t_table[bucket] = item;\n\t}\n", 1)]),
+        ("H10", "sem", "operator[]: bucket not recomputed after the rehash",
+         [("\t\trehash();\n\t\tbucket = ((unsigned int)_hasher(key)) % _capacity;\n", "\t\trehash();\n", 1)]),
+        ("H11", "sem", "operator[]: key comparison negated",
+         [("\t\tif (item->entry.template get<0>() == key)\n\t\t\treturn item->entry.template get<1>();",
+           "\t\tif (item->entry.template get<0>() != key)\n\t\t\treturn item->entry.template get<1>();", 1)]),
+        ("H12", "sem", "get: empty-map guard dropped (then % 0)",
+         [("\tif(_size == 0)\n\t\treturn nullptr;\n", "", 1)]),
+        ("H13", "sem", "get: walks from the node AFTER the bucket head (drops a null check)",
+         [("\tfor(chain *item = _table[bucket]; item != nullptr; item = item->next) {\n\t\tif(item->entry.template get<0>() == key)\n\t\t\treturn &item",
+           "\tfor(chain *item = _table[bucket]->next; item != nullptr; item = item->next) {\n\t\tif(item->entry.template get<0>() == key)\n\t\t\treturn &item", 1)]),
+        ("H14", "sem", "find: iterator built with a null item",
+         [("\t\t\t\treturn iterator(this, bucket, item);", "\t\t\t\treturn iterator(this, bucket, nullptr);", 1)]),
+        ("H15", "sem", "find: empty-map guard dropped",
+         [("\titerator find(const Key &key) {\n\t\tif (!_size)\n\t\t\treturn end();\n", "\titerator find(const Key &key) {\n", 1)]),
+        ("H16", "sem", "begin: bucket walk starts at 1",
+         [("\t\tfor(size_t bucket = 0; bucket < _capacity; bucket++) {", "\t\tfor(size_t bucket = 1; bucket < _capacity; bucket++) {", 1)]),
+        ("H17", "sem", "begin: FRG_ASSERT(!\"hash_map corrupted\") dropped",
+         [("\t\tFRG_ASSERT(!\"hash_map corrupted\");\n", "", 1)]),
+        ("H18", "sem", "remove: previous not advanced",
+         [("\t\tprevious = item;\n", "", 1)]),
+        ("H19", "sem", "remove: unlink branches exchanged",
+         [("\t\t\tif(previous == nullptr) {\n\t\t\t\t_table[bucket] = item->next;", "\t\t\tif(previous != nullptr) {\n\t\t\t\t_table[bucket] = item->next;", 1)]),
+        ("H20", "sem", "remove: _size not decremented",
+         [("\t\t\tfrg::destruct(_allocator, item);\n\t\t\t_size--;\n", "\t\t\tfrg::destruct(_allocator, item);\n", 1)]),
+        ("H21", "sem", "remove: node not released",
+         [("\t\t\tfrg::destruct(_allocator, item);\n\t\t\t_size--;\n", "\t\t\t_size--;\n", 1)]),
+        ("H22", "sem", "remove: node released before it is unlinked (dependent swap: item->next read after destruct)",
+         [("\t\t\tfrg::destruct(_allocator, item);\n\t\t\t_size--;\n", "\t\t\t_size--;\n", 1),
+          ("\t\t\tValue value = std::move(item->entry.template get<1>());\n", "\t\t\tValue value = std::move(item->entry.template get<1>());\n\t\t\tfrg::destruct(_allocator, item);\n", 1)]),
+        ("H23", "sem", "~hash_map: next read after the node was released (dependent swap)",
+         [("\t\t\tchain *next = item->next;\n\t\t\tfrg::destruct(_allocator, item);\n\t\t\titem = next;\n\t\t}\n\t}\n\t_allocator.deallocate",
+           "\t\t\tfrg::destruct(_allocator, item);\n\t\t\tchain *next = item->next;\n\t\t\titem = next;\n\t\t}\n\t}\n\t_allocator.deallocate", 1)]),
+        ("H24", "sem", "~hash_map: only the first node of every chain released",
+         [("\t\tchain *item = _table[i];\n\t\twhile(item != nullptr) {\n\t\t\tchain *next = item->next;\n\t\t\tfrg::destruct",
+           "\t\tchain *item = _table[i];\n\t\tif(item != nullptr) {\n\t\t\tchain *next = item->next;\n\t\t\tfrg::destruct", 1)]),
+        ("H25", "sem", "iterator::operator++: FRG_ASSERT(bucket < map->_capacity) dropped (both iterators)",
+         [("\t\t\tFRG_ASSERT(bucket < map->_capacity);\n", "", 2)]),
+        ("H26", "sem", "iterator::operator++: bucket incremented after the end test (both iterators)",
+         [("\t\t\t\tbucket++;\n\t\t\t\tif(bucket == map->_capacity)\n\t\t\t\t\tbreak;\n", "\t\t\t\tif(bucket == map->_capacity)\n\t\t\t\t\tbreak;\n\t\t\t\tbucket++;\n", 2)]),
+        ("H27", "sem", "iterator::operator++: FRG_ASSERT(item) dropped (null check; both iterators)",
+         [("\t\t\tFRG_ASSERT(item);\n", "", 2)]),
+        ("HH1", "harmless", "rename the local `previous` of remove (expected green)",
+         [("previous", "prev_node", 4)]),
+        ("HH2", "harmless", "add comments and blank lines (expected green)",
+         [("void hash_map<Key, Value, Hash, Allocator>::rehash() {\n", "void hash_map<Key, Value, Hash, Allocator>::rehash() {\n\t// comment\n\n", 1),
+          ("\titerator begin() {\n", "\n\t/* c */\n\titerator begin() {\n", 1)]),
+        ("HH3", "harmless", "`item != nullptr` -> `item` in the loops of get and ~hash_map (expected green)",
+         [("\tfor(chain *item = _table[bucket]; item != nullptr; item = item->next) {\n\t\tif(item->entry.template get<0>() == key)\n\t\t\treturn &item",
+           "\tfor(chain *item = _table[bucket]; item; item = item->next) {\n\t\tif(item->entry.template get<0>() == key)\n\t\t\treturn &item", 1)]),
+        ("HH4", "harmless", "reorder two INDEPENDENT member writes at the end of rehash (_capacity before _table; expected green: the "
+         "state record is the same)",
+         [("\t_table = new_table;\n\t_capacity = new_capacity;", "\t_capacity = new_capacity;\n\t_table = new_table;", 1)]),
+        ("HH5", "harmless", "PM7 of comp/hashmap: _size++ before the link in insert (independent of the link; expected green)",
+         [("\tauto item = frg::construct<chain>(_allocator, key, value);\n\titem->next = _table[bucket];\n\t_table[bucket] = item;\n\t_size++;",
+           "\tauto item = frg::construct<chain>(_allocator, key, value);\n\t_size++;\n\titem->next = _table[bucket];\n\t_table[bucket] = item;", 1)]),
+        ("HH6", "harmless", "PM3 of comp/hashmap: dead store `_table[i] = nullptr` into the OLD table in rehash (final state equal; "
+         "expected: breaks, the tactic does not know that the index just read is in range)",
+         [("\t\t\titem = next;\n\t\t}\n\t}\n\n\t_allocator.deallocate(_table, sizeof(chain *) * _capacity);\n\t_table = new_table;",
+           "\t\t\titem = next;\n\t\t}\n\t\t_table[i] = nullptr;\n\t}\n\n\t_allocator.deallocate(_table, sizeof(chain *) * _capacity);\n\t_table = new_table;", 1)]),
+        ("HH7", "harmless", "name a subexpression in a new local in get (expected green)",
+         [("\tunsigned int bucket = ((unsigned int)_hasher(key)) % _capacity;\n\n\tfor(chain *item = _table[bucket];",
+           "\tunsigned int bucket = ((unsigned int)_hasher(key)) % _capacity;\n\n\tchain *head = _table[bucket];\n\tfor(chain *item = head;", 1)]),
+        ("HX1", "subset", "outside the subset: rehash walks the old buckets downwards with `i-- > 0` (expected: rejected)",
+         [("\tfor(size_t i = 0; i < _capacity; i++) {\n\t\tchain *item = _table[i];\n\t\twhile(item != nullptr) {\n\t\t\tauto bucket",
+           "\tfor(size_t i = _capacity; i-- > 0;) {\n\t\tchain *item = _table[i];\n\t\twhile(item != nullptr) {\n\t\t\tauto bucket", 1)]),
+        ("HX2", "subset", "outside the subset: the new table escapes into a second pointer (expected: rejected)",
+         [("\tfor(size_t i = 0; i < new_capacity; i++)\n\t\tnew_table[i] = nullptr;", "\tchain **alias = new_table;\n\tfor(size_t i = 0; i < new_capacity; i++)\n\t\talias[i] = nullptr;", 1)]),
     ],
 }
 
@@ -160,7 +251,7 @@ def main(argv):
                         verdict += (" | " if verdict else "") + "tie broke at %s" % lemma
                     elif not verdict:
                         verdict = "green"
-                expect_break = kind in ("sem", "subset")
+                expect_break = kind in ("sem", "subset", "order")
                 flag = ""
                 if kind == "none" and verdict != "green":
                     flag = "  <-- UNCHANGED SOURCE NOT GREEN"
